@@ -206,13 +206,19 @@ Inv_C17(e) == e.op = "Gen" => /\ e.compiles /\ e.words = GenExpected(e.input)
                               /\ e.var = Golden.varscp[e.lang + 1] /\ e.file = Golden.filescp[e.lang + 1]
                               /\ (Has(e, "golden") /\ e.golden => e.words = List(e.lang) /\ e.words = e.committed)
 
+\* Tool qualification (not a property of the package): the specification's NFKD (CPython data) against
+\* golang.org/x/text on probe strings, and the specification's model of x/text's stream-safe insertion
+Inv_XNFKD(e) == e.op = "NFKDProbe" => /\ StreamSafeNFKD(e.in) = e.xtext
+                                       /\ (~StreamSafeDiffers(e.in) => NFKD(e.in) = e.xtext)
+                                       /\ (MaxNonStarterRun(e.in) <= 25 => ~StreamSafeDiffers(e.in))   \* the generators' bound is safe
+
 Holds(p, e) ==
     CASE p = "C01" -> Inv_C01(e) [] p = "C02" -> Inv_C02(e) [] p = "C03" -> Inv_C03(e)
       [] p = "C04" -> Inv_C04(e) [] p = "C05" -> Inv_C05(e) [] p = "C06" -> Inv_C06(e)
       [] p = "C07" -> Inv_C07(e) [] p = "C08" -> Inv_C08(e) [] p = "C09" -> Inv_C09(e)
       [] p = "C10" -> Inv_C10(e) [] p = "C11" -> Inv_C11(e) [] p = "C13" -> Inv_C13(e)
       [] p = "C14" -> Inv_C14(e) [] p = "C15" -> Inv_C15(e) [] p = "C16" -> Inv_C16(e)
-      [] p = "C17" -> Inv_C17(e) [] p = "C12" -> Inv_C12(e) [] OTHER -> TRUE
+      [] p = "C17" -> Inv_C17(e) [] p = "C12" -> Inv_C12(e) [] p = "XNFKD" -> Inv_XNFKD(e) [] OTHER -> TRUE
 KnownF(p, e) == (p = "C04" /\ KF_C04(e)) \/ (p = "C11" /\ KF_C11(e))
 
 ------------------------------------------------------------------------------
@@ -254,7 +260,7 @@ ProtocolBreak(e) ==
     (IF e.op \in {"Check", "Swap", "NewMnemonicCall", "ByEntropy", "ToSeed", "String"} /\ ~Idle THEN {<<l, "call while another is in flight">>} ELSE {})
     \cup (IF e.op = "NewMnemonic" /\ pc = "idle" THEN {<<l, "return without call">>} ELSE {})
 
-IsCall(e) == e.op \in {"RaceReport", "Crash", "ByEntropy", "Check", "ToSeed", "String", "NewMnemonic", "Sweep", "Gen", "ListSource", "Swap", "Read", "OSRandom",
+IsCall(e) == e.op \in {"RaceReport", "Crash", "NFKDProbe", "ByEntropy", "Check", "ToSeed", "String", "NewMnemonic", "Sweep", "Gen", "ListSource", "Swap", "Read", "OSRandom",
                        "Recheck", "Buf", "CheckHuge", "ToSeedHuge"}
 
 Step ==
